@@ -997,6 +997,10 @@ func (m *MutableOverlayWorld) MergeInto(other MutableWorld) error {
 
 func (m *MutableOverlayWorld) Snapshot() b6.World {
 	copy := *m
+	// The existing index now belongs to the snapshot, so features returned
+	// from searches need to be resolved through it, rather than through
+	// the live world.
+	copy.index.features = &copy
 	m.base = &copy
 	m.features = NewFeaturesByID()
 	m.references = NewFeatureReferences()
